@@ -111,7 +111,8 @@ pub fn run_case(ctx: &mut CaseCtx) -> CaseResult {
             }
             15 => ops.push(HOp::Flush),
             16 => ops.push(if rng.chance(1, 3) { HOp::Reopen } else { HOp::Flush }),
-            17 => ops.push(HOp::Trigger),
+            // (now and then the new file cannot be opened: the file keeps its start time)
+            17 => ops.push(if rng.chance(1, 3) { HOp::TriggerFailingOpen } else { HOp::Trigger }),
             _ => {
                 if rng.chance(1, 2) {
                     ops.push(HOp::Restart { append: true });
